@@ -83,6 +83,7 @@ type Report struct {
 	Wall           time.Duration
 	RecoveredPanics int
 	BranchesKeptOnUnknown int
+	ForkSites map[string]int
 }
 
 func newReport() *Report {
@@ -100,6 +101,12 @@ func (r *Report) merge(o *Report) {
 	r.Steps += o.Steps
 	r.RecoveredPanics += o.RecoveredPanics
 	r.BranchesKeptOnUnknown += o.BranchesKeptOnUnknown
+	for k, v := range o.ForkSites {
+		if r.ForkSites == nil {
+			r.ForkSites = map[string]int{}
+		}
+		r.ForkSites[k] += v
+	}
 	if o.MaxUnwindSeen > r.MaxUnwindSeen {
 		r.MaxUnwindSeen = o.MaxUnwindSeen
 	}
@@ -650,6 +657,12 @@ func (e *Engine) choose(conds []*smt.Term, exhaustive bool) int {
 		panic(abortPath{kind: "infeasible"})
 	}
 	if len(feas) > 1 {
+		if e.cfg.Verbose {
+			if e.rep.ForkSites == nil {
+				e.rep.ForkSites = map[string]int{}
+			}
+			e.rep.ForkSites[e.where()] += len(feas) - 1
+		}
 		e.rep.Forks += len(feas) - 1
 		base := append([]int{}, e.taken...)
 		for j := len(feas) - 1; j >= 1; j-- {
